@@ -351,7 +351,6 @@ Proof.
               -- specialize (Hkeys x (or_introl Hx)). lia.
               -- apply map_keys_append in Hx as [->|Hx]; [lia|]. specialize (Hkeys x (or_intror Hx)). lia. }
       destruct Hst' as [Hti [Hcnt Hk']].
-      assert (Hpend : forall j, cnt (N.of_nat j) (ps_pending st') = 0%nat \/ True) by (intros; now right).
       constructor; cbn [ps_token_indices ps_leading ps_trailing ps_pending ps_last_token_idx].
       * rewrite Hti, syn_idx_snoc, Hsy, Hidx. reflexivity.
       * split; [now rewrite no_syntax_snoc, Hsy, andb_false_r|].
@@ -469,4 +468,266 @@ Proof.
     { apply preparse_only_trivia. left. lia. }
     rewrite N2Nat.id in Ha. unfold attachments, cnt in Ha.
     destruct H as [H|H]; apply (count_occ_In N.eq_dec) in H; lia.
+Qed.
+
+(* ------------------------------------------------------------------------------------------ *)
+(* `dropped` in words (positions instead of scans)                                            *)
+(* ------------------------------------------------------------------------------------------ *)
+
+Lemma no_syntax_nth : forall l,
+  no_syntax l = true <-> (forall i, (i < length l)%nat -> is_syntax (nth i l dtok) = false).
+Proof.
+  unfold no_syntax. induction l as [|a l IH]; cbn [existsb length].
+  - split; [intros _ i Hi; lia|reflexivity].
+  - split.
+    + intros H i Hi. apply negb_true_iff, orb_false_iff in H as [Ha Hl].
+      destruct i as [|i]; cbn [nth]; [assumption|]. apply IH; [now rewrite Hl|lia].
+    + intro H. apply negb_true_iff, orb_false_iff. split; [apply (H 0%nat); lia|].
+      apply negb_true_iff. apply IH. intros i Hi. apply (H (S i)). lia.
+Qed.
+
+Lemma lb_or_end_nth : forall l,
+  lb_or_end_first l = true <->
+  ((exists b, (b < length l)%nat /\ is_linebreak (nth b l dtok) = true /\
+              forall i, (i < b)%nat -> is_syntax (nth i l dtok) = false)
+   \/ (forall i, (i < length l)%nat -> is_syntax (nth i l dtok) = false)).
+Proof.
+  induction l as [|a l IH]; cbn [lb_or_end_first length].
+  - split; [intros _; right; intros i Hi; lia|reflexivity].
+  - destruct (is_linebreak a) eqn:Ea.
+    + split; [|reflexivity]. intros _. left. exists 0%nat. cbn [nth]. repeat split; [lia|assumption|intros i Hi; lia].
+    + destruct (is_syntax a) eqn:Es.
+      * split; [discriminate|]. intros [[b [Hb [Hlb Hi]]]|H].
+        -- destruct b as [|b]; cbn [nth] in Hlb; [congruence|]. specialize (Hi 0%nat). cbn [nth] in Hi. rewrite Hi in Es; [discriminate|lia].
+        -- specialize (H 0%nat). cbn [nth] in H. rewrite H in Es; [discriminate|lia].
+      * rewrite IH. split; intros [[b [Hb [Hlb Hi]]]|H].
+        -- left. exists (S b). cbn [nth]. repeat split; [lia|assumption|].
+           intros i Hlt. destruct i as [|i]; cbn [nth]; [assumption|apply Hi; lia].
+        -- right. intros i Hlt. destruct i as [|i]; cbn [nth]; [assumption|apply H; lia].
+        -- destruct b as [|b]; cbn [nth] in Hlb; [congruence|]. left. exists b. repeat split; [lia|assumption|].
+           intros i Hlt. apply (Hi (S i)). lia.
+        -- right. intros i Hlt. apply (H (S i)). lia.
+Qed.
+
+Lemma nth_firstn_lt : forall (l : list Token) j i, (i < j)%nat -> nth i (firstn j l) dtok = nth i l dtok.
+Proof.
+  induction l as [|a l IH]; intros j i H; destruct j as [|j]; try lia; cbn [firstn nth].
+  - now destruct i.
+  - destruct i as [|i]; [reflexivity|]. apply IH. lia.
+Qed.
+
+Lemma nth_skipn_add : forall (l : list Token) j i, nth i (skipn j l) dtok = nth (j + i) l dtok.
+Proof.
+  induction l as [|a l IH]; intros j i; destruct j as [|j]; cbn [skipn Nat.add nth]; try reflexivity.
+  - now destruct i.
+  - apply IH.
+Qed.
+
+(* The F5 situation in words: no syntax token before j, and from j on a LineBreak (at b >= j) or the
+   end of the token list is reached without meeting a syntax token. *)
+Theorem dropped_spec : forall toks j, (j <= length toks)%nat ->
+  (dropped toks j = true <->
+   (forall i, (i < j)%nat -> is_syntax (nth i toks dtok) = false) /\
+   ((exists b, (j <= b < length toks)%nat /\ is_linebreak (nth b toks dtok) = true /\
+               forall i, (j <= i < b)%nat -> is_syntax (nth i toks dtok) = false)
+    \/ (forall i, (j <= i < length toks)%nat -> is_syntax (nth i toks dtok) = false))).
+Proof.
+  intros toks j Hj. unfold dropped. rewrite andb_true_iff, no_syntax_nth, lb_or_end_nth.
+  rewrite firstn_length_le, skipn_length by assumption.
+  split; intros [H1 H2]; split.
+  - intros i Hi. rewrite <- (nth_firstn_lt toks j i Hi). now apply H1.
+  - destruct H2 as [[b [Hb [Hlb Hi]]]|H2].
+    + left. exists (j + b)%nat. rewrite nth_skipn_add in Hlb. repeat split; [lia|lia|assumption|].
+      intros i Hr. specialize (Hi (i - j)%nat). rewrite nth_skipn_add in Hi.
+      replace (j + (i - j))%nat with i in Hi by lia. apply Hi. lia.
+    + right. intros i Hr. specialize (H2 (i - j)%nat). rewrite nth_skipn_add in H2.
+      replace (j + (i - j))%nat with i in H2 by lia. apply H2. lia.
+  - intros i Hi. rewrite (nth_firstn_lt toks j i Hi). now apply H1.
+  - destruct H2 as [[b [Hb [Hlb Hi]]]|H2].
+    + left. exists (b - j)%nat. rewrite nth_skipn_add. replace (j + (b - j))%nat with b by lia.
+      repeat split; [lia|assumption|]. intros i Hr. rewrite nth_skipn_add. apply Hi. lia.
+    + right. intros i Hr. rewrite nth_skipn_add. apply H2. lia.
+Qed.
+
+(* ------------------------------------------------------------------------------------------ *)
+(* F5 witness and the bounds used by C04_preparse_total                                       *)
+(* ------------------------------------------------------------------------------------------ *)
+
+(* the text "// c\nfn" with the classification the real tokenizer exhibits *)
+Definition f5_witness : Input :=
+  [ mkCh 47 false false false false false; mkCh 47 false false false false false;
+    mkCh 32 false false false false false; mkCh 99 false true true false false;
+    mkCh 10 true false false false false;
+    mkCh 102 false true true false false; mkCh 110 false true true false false ].
+
+Theorem leading_trivia_refuted :
+  exists (s : Input) (toks : list Token),
+    tokenize s = TokOk toks /\
+    toks = [mkTok KSingleLineComment 0 4; mkTok KLineBreak 4 1; mkTok KFunction 5 2; mkTok KEof 7 0] /\
+    attachments 0 (preparse toks) = 0%nat /\ attachments 1 (preparse toks) = 0%nat.
+Proof.
+  exists f5_witness. eexists. split; [vm_compute; reflexivity|]. split; [reflexivity|].
+  split; vm_compute; reflexivity.
+Qed.
+
+Theorem preparse_total : forall (toks : list Token) (x : N),
+  (In x (pp_token_indices (preparse toks)) \/
+   In x (map_values (pp_leading (preparse toks))) \/ In x (map_values (pp_trailing (preparse toks))) ->
+   (x < N.of_nat (length toks))%N) /\
+  (In x (map_keys (pp_leading (preparse toks))) \/ In x (map_keys (pp_trailing (preparse toks))) ->
+   (x < N.of_nat (length (pp_token_indices (preparse toks))))%N).
+Proof.
+  intros toks x. split; [apply preparse_indices_in_range|apply preparse_keys_in_range].
+Qed.
+
+(* ------------------------------------------------------------------------------------------ *)
+(* attached trivia are neighbours of the token they are attached to                           *)
+(* ------------------------------------------------------------------------------------------ *)
+
+(* number of syntax tokens strictly before token index v *)
+Definition syn_before (toks : list Token) (v : N) : N :=
+  N.of_nat (length (filter is_syntax (firstn (N.to_nat v) toks))).
+
+(* every value v stored under key k satisfies Q k v *)
+Definition MapOK (Q : N -> N -> Prop) (m : TriviaMap) : Prop :=
+  forall k vs v, In (k, vs) m -> In v vs -> Q k v.
+
+Lemma MapOK_nil : forall Q, MapOK Q [].
+Proof. intros Q k vs v []. Qed.
+
+Lemma MapOK_impl : forall (Q Q' : N -> N -> Prop) m, (forall k v, Q k v -> Q' k v) -> MapOK Q m -> MapOK Q' m.
+Proof. intros Q Q' m H Hm k vs v Hin Hv. apply H. eapply Hm; eassumption. Qed.
+
+Lemma MapOK_append : forall (Q : N -> N -> Prop) k vs m,
+  MapOK Q m -> (forall v, In v vs -> Q k v) -> MapOK Q (map_append k vs m).
+Proof.
+  intros Q k vs. induction m as [|[k' l] r IH]; intros Hm Hvs; cbn [map_append].
+  - intros k0 vs0 v [E|[]] Hv. inversion E; subst k0 vs0. now apply Hvs.
+  - destruct (N.eqb_spec k' k) as [->|Hne].
+    + intros k0 vs0 v [E|Hin] Hv.
+      * inversion E; subst k0 vs0. apply in_app_or in Hv as [Hv|Hv]; [|now apply Hvs].
+        apply (Hm k l v); [now left|assumption].
+      * apply (Hm k0 vs0 v); [now right|assumption].
+    + intros k0 vs0 v [E|Hin] Hv.
+      * inversion E; subst k0 vs0. apply (Hm k' l v); [now left|assumption].
+      * apply (IH (fun a b c H1 H2 => Hm a b c (or_intror H1) H2) Hvs k0 vs0 v Hin Hv).
+Qed.
+
+Lemma syn_idx_length : forall l i, length (syn_idx i l) = length (filter is_syntax l).
+Proof.
+  induction l as [|t r IH]; intro i; cbn [syn_idx filter]; [reflexivity|].
+  destruct (is_syntax t); cbn [length]; now rewrite IH.
+Qed.
+
+Lemma syn_before_snoc : forall seen t v, (v <= N.of_nat (length seen))%N ->
+  syn_before (seen ++ [t]) v = syn_before seen v.
+Proof. intros seen t v H. unfold syn_before. rewrite firstn_snoc_le by lia. reflexivity. Qed.
+
+Lemma syn_before_all : forall seen t, syn_before (seen ++ [t]) (N.of_nat (length seen)) = N.of_nat (length (filter is_syntax seen)).
+Proof.
+  intros. unfold syn_before. rewrite Nat2N.id, firstn_app, Nat.sub_diag, firstn_all. cbn [firstn]. now rewrite app_nil_r.
+Qed.
+
+Definition Near (seen : list Token) (d : N) (k v : N) : Prop :=
+  (v < N.of_nat (length seen))%N /\ syn_before seen v = (k + d)%N.
+
+Record Inv2 (seen : list Token) (st : PreState) : Prop := {
+  inv2_pending : forall v, In v (ps_pending st) ->
+                   Near seen 0 (N.of_nat (length (ps_token_indices st))) v;
+  inv2_leading : MapOK (Near seen 0) (ps_leading st);
+  inv2_trailing : MapOK (Near seen 1) (ps_trailing st);
+  inv2_last : forall k, ps_last_token_idx st = Some k -> (k + 1 = N.of_nat (length (ps_token_indices st)))%N
+}.
+
+Lemma Near_snoc : forall seen t d k v, Near seen d k v -> Near (seen ++ [t]) d k v.
+Proof.
+  intros seen t d k v [Hlt Hs]. split; [rewrite app_length; cbn [length]; lia|].
+  rewrite syn_before_snoc by lia. exact Hs.
+Qed.
+
+Lemma Near_new : forall seen t st, ps_token_indices st = syn_idx 0 seen ->
+  Near (seen ++ [t]) 0 (N.of_nat (length (ps_token_indices st))) (N.of_nat (length seen)).
+Proof.
+  intros seen t st Hidx. split; [rewrite app_length; cbn [length]; lia|].
+  rewrite syn_before_all, Hidx, syn_idx_length. lia.
+Qed.
+
+Lemma Inv2_init : Inv2 [] pre_init.
+Proof. constructor; cbn; try apply MapOK_nil; [intros v []|discriminate]. Qed.
+
+Lemma Inv2_step : forall seen st t, Inv seen st -> Inv2 seen st ->
+  Inv2 (seen ++ [t]) (pre_step st (N.of_nat (length seen)) t).
+Proof.
+  intros seen st t HI [Hpend Hlead Htrail Hlast]. pose proof (inv_idx _ _ HI) as Hidx.
+  assert (Hpend' : forall v, In v (ps_pending st ++ [N.of_nat (length seen)]) ->
+                     Near (seen ++ [t]) 0 (N.of_nat (length (ps_token_indices st))) v).
+  { intros v Hv. apply in_app_or in Hv as [Hv|[<-|[]]]; [apply Near_snoc; now apply Hpend|now apply Near_new]. }
+  assert (Hlead' : MapOK (Near (seen ++ [t]) 0) (ps_leading st)).
+  { eapply MapOK_impl; [|exact Hlead]. intros k v. apply Near_snoc. }
+  assert (Htrail' : MapOK (Near (seen ++ [t]) 1) (ps_trailing st)).
+  { eapply MapOK_impl; [|exact Htrail]. intros k v. apply Near_snoc. }
+  unfold pre_step. destruct (is_trivia t) eqn:Etr.
+  - destruct (is_linebreak t).
+    + destruct (ps_last_token_idx st) as [k|] eqn:El.
+      * constructor; cbn [ps_token_indices ps_leading ps_trailing ps_pending ps_last_token_idx]; try assumption.
+        -- intros v [].
+        -- apply MapOK_append; [assumption|]. intros v Hv. specialize (Hpend' v Hv).
+           destruct Hpend' as [H1 H2]. split; [assumption|]. rewrite H2. specialize (Hlast k eq_refl). lia.
+      * constructor; cbn [ps_token_indices ps_leading ps_trailing ps_pending ps_last_token_idx]; try assumption.
+        intros v [].
+    + constructor; cbn [ps_token_indices ps_leading ps_trailing ps_pending ps_last_token_idx]; assumption.
+  - destruct (is_eof t); cbn [negb].
+    + constructor; try assumption. intros v Hv. apply Near_snoc. now apply Hpend.
+    + (* syntax token: pending is flushed, then the token is pushed *)
+      assert (Hp0 : forall v, In v (ps_pending st) -> Near (seen ++ [t]) 0 (N.of_nat (length (ps_token_indices st))) v).
+      { intros v Hv. apply Near_snoc. now apply Hpend. }
+      destruct (ps_pending st) as [|p0 pend] eqn:Ep.
+      * constructor; cbn [ps_token_indices ps_leading ps_trailing ps_pending ps_last_token_idx]; try assumption.
+        -- intros v Hv. rewrite Ep in Hv. destruct Hv.
+        -- intros k E. inversion E; subst. rewrite app_length. cbn [length]. lia.
+      * destruct (ps_last_was_linebreak st || match ps_last_token_idx st with None => true | Some _ => false end) eqn:Ec.
+        -- constructor; cbn [ps_token_indices ps_leading ps_trailing ps_pending ps_last_token_idx]; try assumption.
+           ++ intros v [].
+           ++ apply MapOK_append; [assumption|]. intros v Hv. specialize (Hp0 v Hv).
+              destruct Hp0 as [H1 H2]. split; [assumption|]. rewrite H2. lia.
+           ++ intros k E. inversion E; subst. rewrite app_length. cbn [length]. lia.
+        -- destruct (ps_last_token_idx st) as [l|] eqn:El; [|rewrite orb_true_r in Ec; discriminate].
+           constructor; cbn [ps_token_indices ps_leading ps_trailing ps_pending ps_last_token_idx]; try assumption.
+           ++ intros v [].
+           ++ apply MapOK_append; [assumption|]. intros v Hv. specialize (Hp0 v Hv).
+              destruct Hp0 as [H1 H2]. split; [assumption|]. rewrite H2. specialize (Hlast l eq_refl). lia.
+           ++ intros k E. inversion E; subst. rewrite app_length. cbn [length]. lia.
+Qed.
+
+Lemma Inv2_loop : forall rest seen st, Inv seen st -> Inv2 seen st ->
+  Inv2 (seen ++ rest) (pre_loop st (N.of_nat (length seen)) rest).
+Proof.
+  induction rest as [|t rest IH]; intros seen st H H2; cbn [pre_loop].
+  - now rewrite app_nil_r.
+  - replace (seen ++ t :: rest) with ((seen ++ [t]) ++ rest) by (rewrite <- app_assoc; reflexivity).
+    replace (N.succ (N.of_nat (length seen))) with (N.of_nat (length (seen ++ [t])))
+      by (rewrite app_length; cbn [length]; lia).
+    apply IH; [now apply Inv_step|now apply Inv2_step].
+Qed.
+
+(* leading trivia of syntax token #k lie after exactly k syntax tokens (between #k-1 and #k);
+   trailing trivia of #k lie after exactly k+1 (between #k and #k+1) *)
+Theorem preparse_neighbour : forall toks k vs v, In v vs ->
+  (In (k, vs) (pp_leading (preparse toks)) -> syn_before toks v = k) /\
+  (In (k, vs) (pp_trailing (preparse toks)) -> syn_before toks v = (k + 1)%N).
+Proof.
+  intros toks k vs v Hv. unfold preparse.
+  pose proof (Inv2_loop toks [] pre_init Inv_init Inv2_init) as [Hpend Hlead Htrail Hlast].
+  cbn [app length N.of_nat] in *. set (st := pre_loop pre_init 0 toks) in *.
+  assert (HL : In (k, vs) (ps_leading st) -> syn_before toks v = k).
+  { intro Hin. destruct (Hlead k vs v Hin Hv) as [_ H]. rewrite H. lia. }
+  assert (HT : MapOK (Near toks 1) (pp_trailing (pre_finish st))).
+  { unfold pre_finish. destruct (ps_pending st) as [|p0 pend] eqn:Ep; cbn [pp_trailing]; [assumption|].
+    destruct (ps_last_token_idx st) as [l|] eqn:El; cbn [pp_trailing]; [|assumption].
+    apply MapOK_append; [assumption|]. intros w Hw. destruct (Hpend w Hw) as [H1 H2].
+    split; [assumption|]. rewrite H2. specialize (Hlast l eq_refl). lia. }
+  split.
+  - intro Hin. apply HL. unfold pre_finish in Hin.
+    destruct (ps_pending st); [exact Hin|]. destruct (ps_last_token_idx st); exact Hin.
+  - intro Hin. destruct (HT k vs v Hin Hv) as [_ H]. exact H.
 Qed.
